@@ -115,6 +115,8 @@ static inline Built build_frame(const HCfg &h, const Op &op, const Shadow &sh) {
             for (size_t i = 0; i + 14 <= op.blob.size() && d.size() < cap; i += 14) {
                 EmitDesc e; e.kind = op.blob[i]; e.pause = op.blob[i + 1];
                 e.src = getmac(&op.blob[i + 2]); e.dst = getmac(&op.blob[i + 8]);
+                if (mac_to_u64(e.src) == 0x0E0000000000ULL) e.src = own;    // sentinel: the responder's own address
+                if (mac_to_u64(e.dst) == 0x0E0000000000ULL) e.dst = own;
                 d.push_back(e);
             }
             b.frame = mk_emit(own, esrc, own, rsrc, (uint16_t)op.arg(1), d, op.arg(2, -1));
@@ -208,11 +210,27 @@ inline rc::Gen<Bytes> emit_descs(int maxn) {
             Bytes d(14);
             d[0] = (uint8_t)*pick({0, 1});
             d[1] = (uint8_t)*bnd({0, 1, 255}, 0, 255, 1, 1);
-            uint64_t s = 0x0400CC000000ULL + (uint64_t)*range<int>(0, 5), t = 0x0400F0000000ULL + (uint64_t)*range<int>(0, 5);
-            Mac sm = mac_from_u64(s), tm = mac_from_u64(t);
+            // sources / destinations: a few ordinary stations, plus broadcast, all-zero and the responder's own address (sentinel 0e:00:00:00:00:00,
+            // replaced by the builder); pause values from the whole byte range incl. >= 128
+            auto addr = [](uint64_t base) -> Mac {
+                int k = *range<int>(0, 11);
+                if (k == 9) return BCAST;
+                if (k == 10) return ZEROMAC;
+                if (k == 11) return mac_from_u64(0x0E0000000000ULL);
+                return mac_from_u64(base + (uint64_t)(k % 6));
+            };
+            Mac sm = addr(0x0400CC000000ULL), tm = addr(0x0400F0000000ULL);
             memcpy(&d[2], sm.b, 6); memcpy(&d[8], tm.b, 6);
             return d;
-        })), [](std::vector<Bytes> v) { Bytes all; for (auto &x : v) all.insert(all.end(), x.begin(), x.end()); return all; });
+        })), [](std::vector<Bytes> v) {
+            Bytes all;
+            for (size_t i = 0; i < v.size(); i++) {
+                // every third descriptor (by content hash) repeats the previous path with the OTHER kind: adjacent descriptors that differ only in kind
+                if (i > 0 && (v[i][1] % 3) == 0) { uint8_t kind = (uint8_t)(all[all.size() - 14] ^ 1), pause = v[i][1]; Bytes d(all.end() - 14, all.end()); d[0] = kind; d[1] = pause; v[i] = d; }
+                all.insert(all.end(), v[i].begin(), v[i].end());
+            }
+            return all;
+        });
     });
 }
 inline rc::Gen<Op> op_gen(const HistWeights &w) {
